@@ -210,6 +210,6 @@ def check_case(ctx: Ctx, case) -> None:
 
 
 PARTS: list[Part] = [
-    hyp_part("cases", strat_cases, check_case, {"quick": 120, "thorough": 2500},
+    hyp_part("cases", strat_cases, check_case, {"quick": 250, "thorough": 2500},
              {"quick": 8, "thorough": 16}),
 ]
